@@ -11,7 +11,7 @@ import writemodel as wm
 
 PROP = "C01"
 MODEL_TARGETS = ["Corr/WriteShow.vo"]
-THEOREMS = ["C01_tokens_roundtrip", "C01_wrap_tokens", "C01_row_tokens", "C01_wrap_no_empty_line", "C01_nan_is_null"]
+THEOREMS = ["C01_padded_tokens", "C01_row_tokens", "C01_wrap_tokens", "C01_wrap_no_blank_line", "C01_wrap_fits", "C01_chunks", "C01_nan_is_null", "C01_nan_without_null", "C01_num_is_fmt", "C01_col_fmt", "C01_tok_matrix_nth", "C01_lines_defined", "C01_lines_tokens", "C01_wrapped_tokens", "C01_data_roundtrip_lines", "C01_clean_line_of_tokens", "C01_subs_local", "C01_nomatch_tokens", "C01_data_roundtrip", "C01_roundtrip_cell", "C01_write_data_lines", "C01_clean_is_dom2"]
 ASSUMPTIONS = [
     "oracle: `fmt % x` prints x correctly rounded to the digits the format asks for, float(text) is the correctly rounded double; "
     "so the recovered sample float(fmt % x) is within half a unit of the last printed digit (plus the final binary rounding)",
@@ -33,8 +33,11 @@ def rand_float(rng):
     if k < 0.6:
         return rng.choice([0.0, -0.0, 5e-324, -5e-324, 2.2250738585072014e-308, 1.7976931348623157e308, -1.7976931348623157e308,
                            0.1, 0.5, 1e-5, 123456.789012345, 1e22, 1e23, 9007199254740993.0])
-    if k < 0.7:
+    if k < 0.66:
         return round(rng.uniform(-100, 100), rng.randint(0, 6))
+    if k < 0.72:
+        # finite samples close to (but printed differently from) the NULL value -999.25
+        return -999.25 + rng.choice([0.005, -0.005, 0.01, -0.0099, 0.05, -0.1, 0.0011])
     bits = rng.getrandbits(64)
     x = struct.unpack("<d", struct.pack("<Q", bits))[0]
     if math.isnan(x) or math.isinf(x):
